@@ -400,9 +400,11 @@ class C06(Property):
         'the quantifier over PROGRAMS (integrators) is a singleton here: only scipy/LSODA is installed, integrator=None and "scipy" are the '
         'same solver; cvode/odeint/gsl back-ends of pyodesys are never exercised',
         'unit-aware entry points (get_odesys(unit_registry=...), quantities in and out) of integrate and max_euler_step_cb: oracle only',
-        'other system classes / options of the builder (pyodesys ScaledSys with dep_scaling / indep_scaling): the theorems speak about the '
-        'plain system; that ScaledSys IS the plain system with k_int = k s^(1-n)/tau at s*y is used by the correspondence, not proved; the '
-        'user-scale reading of the returned step (h/indep_scaling, cap 1/indep_scaling) is an interpretation checked by the oracle only',
+        'pyodesys ScaledSys (dep_scaling / indep_scaling): PROVED are the algebraic facts the correspondence and the oracle rely on '
+        '(scaled_rates, scaled_fvec, scaled_step, scaled_step_user_scale: rescaled system = s/tau times the plain one, step limits tau times, '
+        'returned/tau = min(min_h, 1/tau)); NOT proved: the same homogeneity for upper_conc_bounds (bounds of s*y = s*bounds of y, '
+        'C08-owned boundOf/listMin) and hence the composed statement about maxEulerStepCb; that pyodesys ScaledSys implements exactly '
+        'this change of variables is third-party behaviour tied by the correspondence only',
         'the many spellings of a reaction in text (repeated terms, explicit 1, mixes) reach the integrator unchanged: sampled only (C12 proves '
         'the parser model, nothing composes it with the kinetics here)',
         'zero composition coefficients: the exact model refuses (ZeroDivisionError), numpy gives inf/nan bounds and an order-dependent min; Python\'s '
@@ -848,7 +850,9 @@ class C06(Property):
         a, b = impl_out.split('|'), model_out.split('|')
         if len(a) != len(b):
             return False
+        seen = []
         for x, y in zip(a, b):
+            seen.append(1)
             if y == 'ZeroDivisionError' and ';' in x:
                 # QUIRK bucket (documented divergence, no claim): a zero composition coefficient makes the exact model refuse, whereas
                 # numpy computes total/0 = inf or 0/0 = nan and Python's min() then ignores a nan unless it comes first
@@ -867,9 +871,14 @@ class C06(Property):
             lf = lambda s: [v for v in s[1:-1].split(',') if v != '']
             # ScaledSys evaluates k*s/tau*(y/s)^n term by term: exact for powers of two up to the summation of large terms, so its
             # derivative is compared relative to the largest component (plain systems: per component, exact inputs)
-            fabs = 1e-12 * max([abs(float(F(v))) for v in lf(fy)] + [0.0]) if mc.get('sysopt') else 0.0
-            for u, v in zip(lf(fx), lf(fy)):
-                if not close(float(u), F(v), 1e-12, fabs):
+            fabs = [0.0] * len(lf(fy))
+            if mc.get('sysopt'):      # cancellation between large terms (k1*B vs k2*C^3): tolerance relative to sum |terms|, per component
+                st = mc['states'][len(seen) - 1] if len(seen) <= len(mc['states']) else None
+                if st is not None and len(st) == len(mc['keys']):
+                    _f, mag = indep_rhs([[k, c] for k, c in zip(mc['keys'], mc['comps'])], mc['rxns'], [float(_fr(v)) for v in st])
+                    fabs = [1e-12 * m for m in mag]
+            for (u, v), fa in zip(zip(lf(fx), lf(fy)), fabs):
+                if not close(float(u), F(v), 1e-12, fa):
                     return False
             for u, v in zip(lf(ux), lf(uy)):
                 if (v == 'inf') != (u == 'inf') or (v != 'inf' and not close(float(u), F(v), 1e-12)):
@@ -913,7 +922,9 @@ class C06(Property):
         #  computes (ub - y)/f with ub - y = rounding noise of either sign, i.e. a step of +-1e-17: accepted as zero there only)
         #  a negative value whose whole effect |h*f_i| is below 1e-14 of the concentration scale (a few ulp of ub - y) counts as the zero step; triaged:
         #  the closed-system bound is no limit of an open tank, h = 0 satisfies the clause)
-        if feed and h < 0 and all(abs(h * f[i]) <= 1e-14 * (abs(y[i]) + (ub[i] if math.isfinite(ub[i]) else 0) + 1e-300) for i in range(ns)):
+        cscale = max([abs(y[i]) + (ub[i] if math.isfinite(ub[i]) else 0) for i in range(ns)] + [1e-300])      # of the whole state: an element
+        # that is absent has y = ub = 0 for all its species, but the feed still moves them by h*f
+        if feed and h < 0 and all(abs(h * f[i]) <= 1e-14 * cscale for i in range(ns)):
             return None
         if not (0 <= h <= cap * (1 + 1e-12)):
             return 'max_euler_step_cb: step %r (user time scale) outside [0, %r] at y=%r%s' % (h, cap, y, where)
